@@ -32,6 +32,7 @@ NOPT == -1
 LawValsA == {0, 2, STALE}          \* cfg files cannot spell negative numbers
 LawValsB == {0, 1, 3, STALE}
 LawValsN == {0, 2, STALE, NAN}     \* with the ordinary NaN sample
+LawValsM == {0, STALE, NAN}        \* (two free series: one number, the NaN sample, the marker)
 LawLabs == << Lab3("ma", "a", "x"), Lab2("ma", "ab"), Lab3("ma", "b", "y") >>
 LawFixed == << <<>>, << <<0, 1>>, <<2, STALE>>, <<3, 4>> >>, << <<1, 3>>, <<2, NAN>>, <<4, 2>> >> >>
 LayoutPts(f) == LET ts == SetToSortSeq({t \in LawTimes : f[t] # NOPT}, LAMBDA a, b : a < b)
@@ -110,12 +111,12 @@ BfsRange ==
 
 (* the NaN family: a sample set whose series carry ORDINARY NaN samples at the start, in the middle and at the end of the      *)
 (* windows asked (ax: every 4th scrape), all-NaN windows (bx), every other sample (by), NaN next to a marker and a gap (abx),  *)
-(* a series without NaN in the same groups (ay), a second metric for one-to-one matches; asked with every range function,      *)
+(* a series without NaN in the same groups (ay, a counter with two plateaus), a second metric for one-to-one matches; asked with every range function,      *)
 (* aggregations over them, comparisons with and without bool, arithmetic                                                       *)
 NaNData(x) == {
   [unit |-> 15, epoch |-> 0,
    series |-> << [lab |-> Lab3("na", "a", "x"),  pts |-> <<P(0, NAN), P(1, -6), P(2, 14), P(3, 4), P(4, NAN), P(5, 8), P(6, 10), P(7, 4), P(8, NAN), P(9, 3), P(10, 5), P(11, NAN), P(12, NAN)>>],
-                 [lab |-> Lab3("na", "a", "y"),  pts |-> <<P(0, 1), P(1, 2), P(2, 3), P(3, 4), P(4, 5), P(5, 6), P(6, 7), P(7, 8), P(8, 9), P(9, 10), P(10, 11), P(11, 12)>>],
+                 [lab |-> Lab3("na", "a", "y"),  pts |-> <<P(0, 1), P(1, 2), P(2, 3), P(3, 4), P(4, 4), P(5, 6), P(6, 7), P(7, 8), P(8, 8), P(9, 10), P(10, 11), P(11, 12)>>],
                  [lab |-> Lab3("na", "b", "x"),  pts |-> <<P(0, NAN), P(1, NAN), P(2, NAN), P(3, NAN), P(4, 2), P(5, NAN), P(6, NAN), P(7, NAN), P(8, NAN), P(10, NAN)>>],
                  [lab |-> Lab3("na", "b", "y"),  pts |-> <<P(0, 5), P(1, NAN), P(2, 3), P(3, NAN), P(4, 1), P(5, NAN), P(6, 7), P(7, NAN), P(8, 2), P(9, NAN), P(10, 4)>>],
                  [lab |-> Lab3("na", "ab", "x"), pts |-> <<P(0, NAN), P(1, 1), P(2, 2), P(3, STALE), P(5, NAN), P(6, 6), P(7, 0), P(8, NAN), P(9, STALE), P(12, 3)>>],
